@@ -18,11 +18,11 @@
      Fail at all: no use after free of a connection or of the service, no refcount underflow, no callback out of
      order, no destroyed while the application holds a reference - and GI holds at the end ([C04_lifecycle]).
    The entry-point theorems keep their earlier names (suffix _partial: each is one part of the whole); the whole is
-   C04_lifecycle / C04_final_state_facts / C04_trace_accepted. *)
+   C04_lifecycle (incl. the trace invariant TI) / C04_final_state_facts / C04_service_facts. *)
 From Coq Require Import ZArith List Bool.
 Require Import Verif.gen.Consts_ipclife.
 Require Import Verif.IpcLifeModel Verif.IpcLifeProofs Verif.IpcLifeProofs2 Verif.IpcLifeProofs3 Verif.IpcLifeProofs4
-               Verif.IpcLifeProofs5 Verif.IpcLifeProofs6 Verif.IpcLifeProofs7.
+               Verif.IpcLifeProofs5 Verif.IpcLifeProofs6 Verif.IpcLifeProofs7 Verif.IpcLifeTrace.
 Import ListNotations.
 Local Open Scope Z_scope.
 
@@ -126,9 +126,31 @@ Print Assumptions C04_callback_contract_all_depths.
    of the order accept created msg* closed+ destroyed, DestroyedWhileHeld, TransportGone, OutOfFuel) and the invariant
    holds at the end. *)
 Theorem C04_lifecycle : forall shm depth ops,
-  exists w z, run shm true depth ops world0 = Ok w z /\ GI0 w.
+  exists w z, run shm true depth ops world0 = Ok w z /\ GI0 w /\ TI w.
 Proof. exact lifecycle_all. Qed.
 Print Assumptions C04_lifecycle.
+
+(* TI w: for every connection c, running the order automaton [phase_step] (accept created msg* closed(<>0)* closed(0)
+   destroyed, tail optional; no destroyed while a closed re-run is owed; nothing after destroyed) over ALL callback
+   events logged for c, oldest first from its allocation, never gets stuck and ends in c's current phase:
+   [tphs (log w) c = Some (c_ph (conns w c))].  Together with C04_final_state_facts (phase PDead <=> freed, refcount of
+   a live connection = connected + application references + queued re-runs >= 1) this is "destroyed exactly once, exactly
+   when the last reference is dropped, nothing afterwards".  Example: what the automaton accepts and rejects. *)
+Example C04_trace_automaton_example :
+  tphs [ECb KDestroyed 0%nat 0; ECb KClosed 0%nat 0; ECb KClosed 0%nat 1; ECb KMsg 0%nat 0; ECb KCreated 0%nat 0;
+        ECb KAccept 0%nat 0; ENew 0%nat] 0%nat = Some PDead /\
+  tphs [ECb KMsg 0%nat 0; ECb KClosed 0%nat 0; ECb KCreated 0%nat 0; ECb KAccept 0%nat 0; ENew 0%nat] 0%nat = None /\
+  tphs [ECb KDestroyed 0%nat 0; ECb KClosed 0%nat 1; ECb KCreated 0%nat 0; ECb KAccept 0%nat 0; ENew 0%nat] 0%nat = None /\
+  tphs [ECb KClosed 0%nat 0; ECb KAccept 0%nat 0; ENew 0%nat] 0%nat = None.
+Proof. exact trace_example. Qed.
+Print Assumptions C04_trace_automaton_example.
+
+(* log and ghost phases stay consistent in the code as found as well (so the refutation witnesses are statements about
+   callback traces, not about a ghost variable) *)
+Theorem C04_trace_consistent_any_variant : forall shm fixed depth ops,
+  match run shm fixed depth ops world0 with Ok w _ => TI w | Fail _ _ => True end.
+Proof. exact trace_consistent_any_variant. Qed.
+Print Assumptions C04_trace_consistent_any_variant.
 
 (* what the invariant says of every connection between operations: allocated <=> not destroyed; refcount = (1 while
    connected) + application references + queued closed re-runs, at least 1; destroyed => freed, no application
